@@ -47,9 +47,10 @@ def random_history(rng, maxlen, names, ops_kinds):
             if k in ("M", "V", "m", "v"):
                 # interference only: mkdir / verify calls (their own results depend on the jail's state and are not compared)
                 doc = spell(pt.items(ri), plain_spelling(pt.items(ri)))
-                ops.append({"M": "M,%d,%s,-,%s,-,-,-,-" % (h, rng.choice("01"), hx(b"tgt")),
+                ex = rng.choice(["-", "-", "2e676f", "2e676f+2e6d64+2e676f", "2e6d64+61"])     # the same option values recur within a process
+                ops.append({"M": "M,%d,%s,%s,%s,-,-,-,-" % (h, rng.choice("01"), ex, hx(b"tgt")),
                             "V": "V,%d,%s,%s" % (h, rng.choice("01"), hx(b"tgt")),
-                            "m": "m,%s,-,%s,-,-,-,-,%s" % (rng.choice("01"), hx(b"tgt"), hx(doc)),
+                            "m": "m,%s,%s,%s,-,-,-,-,%s" % (rng.choice("01"), ex, hx(b"tgt"), hx(doc)),
                             "v": "v,%s,%s,%s" % (rng.choice("01"), hx(b"tgt"), hx(doc))}[k])
                 continue
             if k == "O":
